@@ -85,7 +85,19 @@ pub fn exercise_zone(zr: TimeZoneRef<'_>, budget: usize) {
             }
         }
     }
+    // the clock-reading entry points: whatever the clock says, they return a value or an error, and errors render
+    for r in [DateTime::now(zr).map(|d| d.to_string()), UtcDateTime::now().map(|d| d.to_string())] {
+        if let Err(e) = r {
+            let _ = format!("{e} {e:?}");
+        }
+    }
     for y in [i32::MIN, i32::MIN + 1, i32::MIN + 2, i32::MIN + 3, -1, 0, 1970, i32::MAX - 3, i32::MAX - 2, i32::MAX - 1, i32::MAX] {
+        if let Err(e) = DateTime::find(y, 2, 30, 0, 0, 0, 0, zr) {
+            let _ = format!("{e} {e:?}");
+        }
+        if let Err(e) = DateTime::find(y, 1, 1, 0, 0, 0, 0, zr) {
+            let _ = format!("{e} {e:?}");
+        }
         let _ = DateTime::find(y, 1, 1, 0, 0, 0, 0, zr);
         let _ = DateTime::find(y, 12, 31, 23, 59, 60, 999_999_999, zr);
         let _ = DateTime::find_n(&mut buf[..1], y, 6, 15, 12, 0, 0, 0, zr);
@@ -102,8 +114,12 @@ pub fn tzif(data: &[u8]) -> Result<(), String> {
         }
     }
     c08::check_bytes(data, false, None, &mut Stats::new())?;
-    if let Ok(z) = &res {
-        exercise_zone(z.as_ref(), 48);
+    match &res {
+        Ok(z) => exercise_zone(z.as_ref(), 48),
+        // rendering a diagnostic must not fail either (Display and Debug, and through the unified error type)
+        Err(e) => {
+            let _ = format!("{e} {e:?}");
+        }
     }
     Ok(())
 }
@@ -119,13 +135,19 @@ pub fn tzstr(data: &[u8]) -> Result<(), String> {
     }
     c09::check_str(&c09::StrCase { s: data.to_vec() }, &mut Stats::new(), true)?;
     if let Ok(s) = std::str::from_utf8(data) {
-        if let Ok(z) = TimeZoneSettings::new(&["/d"], fail_read).parse_posix_tz(s) {
-            exercise_zone(z.as_ref(), 8);
+        match TimeZoneSettings::new(&["/d"], fail_read).parse_posix_tz(s) {
+            Ok(z) => exercise_zone(z.as_ref(), 8),
+            Err(e) => {
+                let _ = format!("{e} {e:?}");
+            }
         }
     }
     for v in [2u8, 3] {
-        if let Ok(z) = TimeZone::from_tz_data(&crate::tzif::footer_file(v, data)) {
-            exercise_zone(z.as_ref(), 8);
+        match TimeZone::from_tz_data(&crate::tzif::footer_file(v, data)) {
+            Ok(z) => exercise_zone(z.as_ref(), 8),
+            Err(e) => {
+                let _ = format!("{e} {e:?}");
+            }
         }
     }
     Ok(())
